@@ -363,3 +363,30 @@ pub fn long_boring_text(rng: &mut Rng, bytes: usize, invalid: bool) -> Vec<u8> {
     }
     t
 }
+
+/// `head` + `tail` common distinct lines around a block of `l1` old lines that is replaced by
+/// `l2` unrelated new lines (strongly asymmetric sizes included).
+pub fn asymmetric_lines_pair(rng: &mut Rng, head: usize, tail: usize, l1: usize, l2: usize) -> (Vec<u8>, Vec<u8>) {
+    let term = *rng.pick(&["\n", "\r\n"]);
+    let mut a = String::new();
+    let mut b = String::new();
+    for i in 0..head {
+        let l = format!("head {}{}", i, term);
+        a.push_str(&l);
+        b.push_str(&l);
+    }
+    for i in 0..l1 {
+        a.push_str(&format!("old block {}{}", i, term));
+    }
+    for i in 0..l2 {
+        b.push_str(&format!("new block {}{}", i, term));
+    }
+    for i in 0..tail {
+        let l = format!("tail {}{}", i, term);
+        a.push_str(&l);
+        b.push_str(&l);
+    }
+    (a.into_bytes(), b.into_bytes())
+}
+
+pub const BLOCK_SIZES: [usize; 5] = [10, 100, 1000, 2600, 4200];
